@@ -149,7 +149,9 @@ func NewTemplateGenerator(
 			log.Err(err).Msg("failed to get current working directory")
 			return nil, stackerr.NewStackErr(err)
 		}
-		outPkgFSPath = pathlib.NewPath(cwd).JoinPath(outPkgFSPath)
+		// Clean: "." (or "x/..") joined to the working directory must compare
+		// equal to the source package's directory below.
+		outPkgFSPath = pathlib.NewPath(cwd).JoinPath(outPkgFSPath).Clean()
 	}
 	outPkgPath, err := findPkgPath(outPkgFSPath)
 	if err != nil {
